@@ -66,9 +66,14 @@ def gen_image(rng):
             code += enc(3, ad - 5) + enc(6, 5)       # LDAC ad-5 ; LDAI 5
         else:
             code += enc(4, ad - 3) + enc(7, 3) + bytes([0xD1])  # LDBC ; LDBI 3 ; ADD
-    if rng.random() < 0.5:
-        # put(areg, 0): STAI 2 ; LDAC 0 ; STAI 3 ; LDAC 1 ; SVC -- with breg = sp
-        code += enc(1, 1) + enc(8, 2) + enc(3, 0) + enc(8, 3) + enc(3, 1) + bytes([0xD3]) + enc(0, 150002)
+    if rng.random() < 0.6:
+        # put(areg, stream): STAI 2 ; LDAC stream ; STAI 3 ; LDAC 1 ; SVC -- with breg = sp; console or a simout file
+        stream = rng.choice([0, 0, 256, 512, 0x700, 255])
+        code += enc(1, 1) + enc(8, 2) + enc(3, stream) + enc(8, 3) + enc(3, 1) + bytes([0xD3]) + enc(0, 150002)
+    if rng.random() < 0.4:
+        # get(stream): LDAC stream ; STAI 2 ; LDAC 2 ; SVC ; LDAM sp+1 -- console or a simin file (EOF when it does not exist)
+        stream = rng.choice([0, 256, 768])
+        code += enc(1, 1) + enc(3, stream) + enc(8, 2) + enc(3, 2) + bytes([0xD3]) + enc(0, 150001)
     if rng.random() < 0.3:
         code += enc(9, -len(code) - 2) if False else b''
     code += EXIT_AREG
@@ -135,6 +140,7 @@ def main():
                     bins.append((b, 'xprogram'))
     ip = os.path.join(d, 'in.bin')
     open(ip, 'wb').write(b'hello\n')
+    open(os.path.join(d, 'simin1'), 'wb').write(b'\x90file one')       # stream 256 reads this; stream 768 (simin3) does not exist
     dist = {}
     distinct = set()
     nbad = 0
@@ -192,6 +198,50 @@ def main():
                 nbad += 1
                 ck.violation('the hexsim executable gives different results for the same binary and input under host-state perturbation or -t: %s / -t rc=%d' % (sorted((x[0], x[1][:20]) for x in outs), rc4),
                              {'binary_hex': open(b, 'rb').read().hex()}, tags={'kind': 'fill'})
+    # ---- the executables cut short by --max-cycles must return the defined initial status (0) whatever the host state
+    xrun, _ = vlib.repo_tool('xrun')
+    loopsrc = os.path.join(d, 'loop.x')
+    open(loopsrc, 'wb').write(b'val exit = 0;\nvar i;\nproc main() is { i := 0; while i < 100000 do i := i + 1; exit(9) }\n')
+    lb = os.path.join(d, 'loop40.bin')
+    cut_runs = []
+    # dirty-stack preload (host memory state: dirty vs clean backing store)
+    dso = os.path.join(d, 'dirty_stack.so')
+    rcc, _, ecc = run3(['cc', '-shared', '-fPIC', '-O0', '-o', dso, os.path.join(vlib.ROOT, 'harness', 'dirty_stack.c')], timeout=120)
+    # the same tools as the project's default build compiles them (no optimisation): different stack residue
+    xrun0, _ = vlib.repo_tool('xrun', flags='-O0')
+    hexsim0, _ = vlib.repo_tool('hexsim', flags='-O0')
+    for rep in range(6 if not ck.thorough() else 200):
+        if xrun0:
+            cut_runs.append(('xrun', [xrun0, 'loop.x', '--max-cycles', '100'], {'SEEDPAD': 'q' * (rep * 24)}))
+        if hexsim0 and os.path.exists(lb):
+            cut_runs.append(('hexsim', [hexsim0, lb, '--max-cycles', '20'], {'SEEDPAD': 'q' * (rep * 24)}))
+    if rcc == 0:
+        for byte in (0xAA, 0x55, 0x01, 0xFF):
+            for tool_cmd in ((('hexsim', [hexsim0, lb, '--max-cycles', '20']) if hexsim0 else None), (('xrun', [xrun0, 'loop.x', '--max-cycles', '100']) if xrun0 else None)):
+                if tool_cmd:
+                    cut_runs.append((tool_cmd[0], tool_cmd[1], {'LD_PRELOAD': dso, 'DIRTY_BYTE': str(byte)}))
+            for tool_cmd in ((('hexsim', [hexsim, lb, '--max-cycles', '20']) if hexsim else None), (('xrun', [xrun, 'loop.x', '--max-cycles', '100']) if xrun else None),
+                             (('xrun', [xrun, 'loop.x', '-t', '--max-cycles', '30']) if xrun else None)):
+                if tool_cmd:
+                    cut_runs.append((tool_cmd[0], tool_cmd[1], {'LD_PRELOAD': dso, 'DIRTY_BYTE': str(byte)}))
+    for k, (env, pre) in enumerate([({}, []), ({'MALLOC_PERTURB_': '85'}, []), ({'PADDING': 'x' * 30000}, []), ({'PADDING': 'y' * 90000, 'MALLOC_PERTURB_': '255'}, []),
+                                    ({}, ['setarch', '-R']), ({'PADDING': 'z' * 5000}, ['setarch', '-R'])] * (2 if not ck.thorough() else 30)):
+        env = dict(env, SEEDPAD='p' * (37 * k))
+        if hexsim and os.path.exists(lb):
+            cut_runs.append(('hexsim', pre + [hexsim, lb, '--max-cycles', '20'], env))
+        if xrun:
+            cut_runs.append(('xrun', pre + [xrun, 'loop.x', '--max-cycles', '100'], env))
+    for tool, cmd, env in cut_runs:
+        rc5, o5, e5 = run3(cmd, cwd=d, stdin=open(ip, 'rb'), env=env, timeout=60)
+        if cmd[0] == 'setarch' and rc5 != 0 and b'setarch' in e5:
+            continue
+        ck.cov['evaluations'] += 1
+        distinct.add((tool, 'cut', len(env.get('SEEDPAD', '')), env.get('DIRTY_BYTE'), os.path.basename(os.path.dirname(cmd[-4] if len(cmd) > 3 else cmd[0]))))
+        if rc5 != 0:
+            nbad += 1
+            if nbad <= 5:
+                ck.violation('%s cut short by --max-cycles returns status %d instead of the defined initial status 0 (host state: %s)' % (tool, rc5, sorted(env)),
+                             {'cmd': cmd[-4:], 'env_keys': sorted(env), 'status': rc5, 'stderr': e5.decode('latin1')[-200:]}, tags={'kind': 'limit', 'tool': tool})
     ck.cov['distinct_nontrivial'] = len(distinct)
     ck.cov['rule'] = 'runs = (image, fill pattern of the backing store, trace on/off, cycle limit); images read words they never wrote; distinct by that tuple; all non-trivial'
     ck.cov['input_distribution'] = dist
